@@ -609,6 +609,8 @@ def app(fname, a):
         if q.denominator == 1:
             k = int(q) % 4
             return const({"cos": (1, 0, -1, 0), "sin": (0, 1, 0, -1)}[fname][k])
+        # other concrete multiples of pi: a number (what libm returns for the double the code would form)
+        return lift(_LIBM[fname](float(dd[PI]) * math.pi))
     return Sym("app", (fname, a), REAL)
 
 
